@@ -17,8 +17,8 @@ c.returns(T.Opt(T.Str))
 c.ensures("name/current", "result == _loky_pickler_name")
 c.modifies()
 
-M.cls("CustomizablePickler", {"dispatch_table": T.Map(T.Obj, T.Obj), "_member_dt": T.Map(T.Obj, T.Obj, nullable=True)},
-      bases=["PicklerBase"])
+M.cls("CustomizablePickler", {"dispatch_table": T.Map(T.Obj, T.Obj), "_loky_pickler_cls": T.Obj},
+      bases=["PicklerBase"], src_path="set_loky_pickler.CustomizablePickler")
 S.cls("PicklerBase", {}, external=True)
 
 c = S.ext("importlib.import_module", cite="importlib.import_module(name): the module, or ImportError")
@@ -37,3 +37,129 @@ c.modifies(f"glob:{RED}._loky_pickler_name", f"glob:{RED}._LokyPickler")
 c.twin("name/selected-is-normalised-argument", "_loky_pickler_name == old(_loky_pickler_name)")
 c.cover("default-from-env", "is_none(loky_pickler)")
 c.cover("empty-means-cloudpickle", "not is_none(loky_pickler) and the(loky_pickler) == ''")
+
+
+# ======================================================================
+# C15: registries, built-in reducers, the customizable pickler
+from specs.externals import _impl
+S.glob("<ext>", "copyreg.dispatch_table", T.Map(T.Obj, T.Obj), doc="the process-wide copyreg registry")
+S.config_hasattr["CustomizablePickler.dispatch_table"] = z3.Bool("cfg!hasattr:pickler-class-has-dispatch_table")
+S.ext_consts["pickle.HIGHEST_PROTOCOL"] = __import__("pyvc.values", fromlist=["VInt"]).VInt(5)
+S.ext_consts["types.MemberDescriptorType"] = __import__("pyvc.values", fromlist=["VConst"]).VConst("types.MemberDescriptorType")
+DT = T.Map(T.Obj, T.Obj)
+
+c = M.contract("register", props=["C15"])
+c.param("type_", T.Obj).param("reduce_function", T.Obj)
+c.ensures("registry/only-that-entry", "type_ in _dispatch_table and _dispatch_table[type_] is reduce_function and "
+          "forall(Obj, lambda k: implies(k is not type_, (k in _dispatch_table) == old(k in _dispatch_table) and _dispatch_table[k] is old(_dispatch_table[k])))")
+c.raises_only("registry/no-exception")
+c.modifies("contents(_dispatch_table)")
+
+c = M.contract("_reduce_method", props=["C15"])
+c.param("m", T.Obj)
+c.ensures("builtin/bound-method-reduces-to-getattr-on-its-object",
+          "implies(attr(m, '__self__') is not None, result[0] is getattr and result[1][0] is attr(m, '__self__') and "
+          "result[1][1] is attr(attr(m, '__func__'), '__name__'))")
+c.ensures("builtin/unbound-reduces-to-getattr-on-its-class",
+          "implies(attr(m, '__self__') is None, result[0] is getattr and result[1][0] is attr(m, '__class__') and result[1][1] is attr(attr(m, '__func__'), '__name__'))")
+c.raises_only("builtin/no-exception")
+c.modifies()
+
+c = M.contract("_reduce_method_descriptor", props=["C15"])
+c.param("m", T.Obj)
+c.ensures("builtin/descriptor-reduces-to-getattr-on-its-class",
+          "result[0] is getattr and result[1][0] is attr(m, '__objclass__') and result[1][1] is attr(m, '__name__')")
+c.raises_only("builtin/no-exception")
+c.modifies()
+
+c = M.contract("_reduce_partial", props=["C15"])
+c.param("p", T.Obj)
+c.ensures("builtin/partial-reduces-to-func-args-keywords",
+          "result[0] is _rebuild_partial and result[1][0] is attr(p, 'func') and result[1][1] is attr(p, 'args') and "
+          "implies(truthy(attr(p, 'keywords')), result[1][2] is attr(p, 'keywords'))")
+c.ensures("builtin/partial-without-keywords-gets-an-empty-dict",
+          "implies(not truthy(attr(p, 'keywords')), len(result[1][2]) == 0)")
+c.raises_only("builtin/no-exception")
+c.modifies()
+
+c = M.contract("_rebuild_partial", props=["C15"])
+c.param("func", T.Obj).param("args", T.Obj).param("keywords", T.Obj)
+c.ensures("builtin/partial-rebuilt-from-the-same-parts", "log_count('partial') == 1 and log_arg('partial', 0, 0) is func and "
+          "log_arg('partial', 0, 1) is args and log_arg('partial', 0, 2) is keywords")
+c.raises_only("builtin/no-exception")
+c.modifies()
+
+
+@_impl("functools.partial", cite="functools.partial(func, *args, **keywords): a callable with .func/.args/.keywords equal to the arguments")
+def _partial(eng, st, self_v, args, kwargs, node):
+    from pyvc.values import VObj, fresh_const
+    from pyvc.calls import Star
+    func = args[0]
+    star = [a for a in args[1:] if isinstance(a, Star)]
+    rest = star[0].v if star else __import__("pyvc.values", fromlist=["VTuple"]).VTuple([a for a in args[1:]])
+    kw = kwargs.get("**", NONE) if "**" in kwargs else st.new_loc("dict", dict(kwargs))
+    st.emit("partial", [func, rest, kw], eng.site(node))
+    return [eng.val(st, VObj(fresh_const("partial", T.IntS)))]
+
+
+c = M.contract("get_loky_pickler", props=["C15"])
+c.ensures("name/current-class", "result is _LokyPickler")
+c.modifies()
+
+# ---- the pickler: scoped customisation as a frame condition ---------------------------------
+CP = "set_loky_pickler.CustomizablePickler"
+HAS_CLS_DT = "cfg('hasattr:pickler-class-has-dispatch_table')"
+
+c = M.contract(f"{CP}._set_dispatch_table", props=["C15"])
+c.param("self", T.Ref("CustomizablePickler")).param("dispatch_table", DT)
+c.ensures("pickler/table-installed", "self.dispatch_table is dispatch_table")
+c.modifies("self.dispatch_table")
+c.assumes("A-user")
+i = S.invariant(f"{RED}:{CP}._set_dispatch_table", 0, "for ancestor_class in self._loky_pickler_cls.mro():")
+i.inv("trivial", "True")
+
+c = M.contract(f"{CP}.register", props=["C15"])
+c.param("self", T.Ref("CustomizablePickler")).param("type", T.Obj).param("reduce_func", T.Obj)
+c.ensures("pickler/register-writes-only-its-own-table",
+          "type in self.dispatch_table and self.dispatch_table[type] is reduce_func and "
+          "forall(Obj, lambda k: implies(k is not type, (k in self.dispatch_table) == old(k in self.dispatch_table) and "
+          "self.dispatch_table[k] is old(self.dispatch_table[k])))")
+c.raises_only("pickler/no-exception")
+c.modifies("contents(self.dispatch_table)")
+
+c = M.contract(f"{CP}.__init__", props=["C15"])
+c.param("self", T.Ref("CustomizablePickler")).param("writer", T.Obj).param("reducers", T.Map(T.Obj, T.Obj, nullable=True), default=NONE)
+c.param("protocol", T.Obj, default=__import__("pyvc.values", fromlist=["VInt"]).VInt(5))
+c.free("loky_pickler_cls", T.Obj)
+BASE = f"ite({HAS_CLS_DT}, old(self.dispatch_table), copyreg.dispatch_table)"
+c.ensures("pickler/table-is-a-new-dictionary", "fresh(self.dispatch_table)")
+c.ensures("pickler/overlay-base-then-loky-then-user",
+          "forall(Obj, lambda k: (k in self.dispatch_table) == (old(k in " + BASE + ") or old(k in _dispatch_table) or (reducers is not None and old(k in reducers))))")
+c.ensures("pickler/user-reducers-win-then-loky-then-base",
+          "forall(Obj, lambda k: implies(k in self.dispatch_table, self.dispatch_table[k] is "
+          "ite(reducers is not None and old(k in reducers), old(reducers[k]), ite(old(k in _dispatch_table), old(_dispatch_table[k]), old(" + BASE + "[k])))))")
+c.raises("pickler/base-constructor-may-fail", "BaseException")
+c.modifies("self.dispatch_table")
+c.assumes("A-user")
+c.note("the frame obligations generated for this contract are the non-interference claim: no dictionary that existed before the call "
+       "(class-level tables, copyreg.dispatch_table, loky's _dispatch_table, the caller's reducers) is written")
+i = S.invariant(f"{RED}:{CP}.__init__", 0, "for type, reduce_func in reducers.items():")
+i.inv("table-still-the-new-one", "fresh(self.dispatch_table) and self.dispatch_table is at_entry(self.dispatch_table)")
+i.inv("visited-reducers-installed", "forall(Obj, lambda k: implies(mem(__seen0, k), k in self.dispatch_table and self.dispatch_table[k] is reducers[k]))")
+i.inv("others-as-after-the-loky-overlay",
+      "forall(Obj, lambda k: implies(not mem(__seen0, k), (k in self.dispatch_table) == at_entry(k in self.dispatch_table) and "
+      "self.dispatch_table[k] is at_entry(self.dispatch_table[k])))")
+
+c = M.contract("dump", props=["C15"])
+c.param("obj", T.Obj).param("file", T.Obj).param("reducers", T.Obj, default=NONE).param("protocol", T.Obj, default=NONE)
+c.ensures("dump/one-pickler-with-the-given-reducers", "log_count('user_call') == 2 and log_arg('user_call', 0, 0) is obj(_LokyPickler)")
+c.raises("dump/pickling-errors-propagate", "BaseException")
+c.modifies()
+c.assumes("A-user")
+
+c = M.contract("dumps", props=["C15"])
+c.param("obj", T.Obj).param("reducers", T.Obj, default=NONE).param("protocol", T.Obj, default=NONE)
+c.returns(T.Obj)
+c.ensures("dumps/delegates-with-the-same-reducers", "log_count('call:dump') == 1 and log_arg('call:dump', 0, 1) is obj and log_arg('call:dump', 0, 3) is reducers")
+c.raises("dumps/pickling-errors-propagate", "BaseException")
+c.modifies()
